@@ -38,6 +38,16 @@ async fn handle_connection(mut socket: TcpStream, controller: Arc<NodeController
 
         let frame_len = u32::from_le_bytes(len_buf) as usize;
         if frame_len == 0 || frame_len > MAX_FRAME_LEN {
+            // The announced body of an oversized frame is still on the wire: consume it
+            // (in bounded chunks) so that the next header is read at a frame boundary.
+            // Otherwise the body would be parsed as a sequence of frames.
+            let mut remaining = frame_len;
+            let mut scratch = [0u8; 8 * 1024];
+            while remaining > 0 {
+                let n = remaining.min(scratch.len());
+                socket.read_exact(&mut scratch[..n]).await?;
+                remaining -= n;
+            }
             send_response(&mut socket, "ERR invalid frame length").await?;
             continue;
         }
